@@ -37,7 +37,7 @@ Fixpoint insert_asc (x : Z) (l : list Z) : list Z :=
   end.
 Definition sort_asc (l : list Z) : list Z := fold_right insert_asc [] l.
 
-(* Python `l[-n]` for 0 <= n <= len l.  NOTE `l[-0]` is `l[0]`. *)
+(* Python `l[-n]` for 0 <= n <= len l.  NOTE `l[-0]` is `l[0]` (the code guards n = 0). *)
 Definition py_neg_index (l : list Z) (n : nat) : Z :=
   match n with
   | O => nth 0 l 0
@@ -63,17 +63,15 @@ Definition n_chi_all (m : cmode) (p q : Z) (sall : list Z) : nat :=
   let rhs := cut_rhs m p cum in
   count_true (fun c => rhs <=? q * c) cum.
 
-(* abs_cutoff (numerator over q) exactly as the code computes it *)
-Definition thr_cut_impl (m : cmode) (p q : Z) (sall : list Z) : Z :=
-  match m with
-  | MAbs => p
-  | MRel => last sall 0 * p
-  | _ => q * py_neg_index sall (n_chi_all m p q sall)
-  end.
-
-(* the repaired rule: when no cumulative sum reaches the cutoff (the cutoff
-   exceeds the total weight) NOTHING is kept, as in modes 1 and 2 *)
-Definition thr_cut_spec (m : cmode) (p q : Z) (sall : list Z) : Z :=
+(* abs_cutoff (numerator over q) exactly as the code computes it.  When no
+   cumulative sum reaches the cutoff (n_chi_all = 0: the cutoff exceeds the
+   total weight) the code sets `abs_cutoff = float("inf")`; +inf is represented
+   by the numerator q*(max+1), which is above q*s for every value s: it is left
+   unchanged by the bond fold and passed by no value, exactly like +inf
+   (TruncProofs.fold_bond_top, keep_count_top; any larger stand-in gives the
+   same counts).  Before the fix d8706ac the code used `sall[-n_chi_all]`
+   unguarded, i.e. `sall[-0] = sall[0]`, and kept everything (see notes/C13.md). *)
+Definition thr_cut (m : cmode) (p q : Z) (sall : list Z) : Z :=
   match m with
   | MAbs => p
   | MRel => last sall 0 * p
@@ -173,8 +171,8 @@ Definition trunc_chargemap thr (mz p q mb : Z) (secs : list sector) : option (li
   | Some m => option_map (new_chargemap secs) (sub_max_bonds thr m p q mb secs)
   end.
 
-Definition trunc_impl := trunc_chargemap thr_cut_impl.
-Definition trunc_spec := trunc_chargemap thr_cut_spec.
+(* the model of svd_truncated that is tied to the code *)
+Definition trunc := trunc_chargemap thr_cut.
 
 (* boolean comparison helpers for the correspondence *)
 Definition cm_eqb (a b : list (Z * nat)) : bool :=
